@@ -105,6 +105,32 @@ pub(crate) mod folo_verif_cpu_mask {
         witness!(b != a && hi == 0, "masks differ only in the shared word");
     }
 
+    /// `insert` as an inductive step: from an ARBITRARY prior content of a 1-word and of a 2-word mask,
+    /// inserting one id inside the width adds exactly that bit and keeps every member already there
+    /// (so sets built by any number of inserts are the union, whatever the insertion order), and never
+    /// changes the width.
+    fn insert_preserves_members() {
+        let w0 = nd::u64();
+        let w1 = nd::u64();
+        let a = nd::u32();
+        nd::assume(a < 128);
+        let mut m2 = CpuMask::with_words(NonZero::new(2).unwrap());
+        *m2.words.get_mut(0).unwrap() = w0 as c_ulong;
+        *m2.words.get_mut(1).unwrap() = w1 as c_ulong;
+        m2.insert(a);
+        let (e0, e1) = if a < 64 { (w0 | (1_u64 << a), w1) } else { (w0, w1 | (1_u64 << (a - 64))) };
+        assert!(m2.word(0) == e0 as c_ulong && m2.word(1) == e1 as c_ulong, "2-word mask: insert adds exactly one bit and keeps the others");
+        assert!(m2.len_bytes() == 16, "2-word mask: width unchanged");
+        if a < 64 {
+            let mut m1 = CpuMask::with_words(NonZero::new(1).unwrap());
+            *m1.words.get_mut(0).unwrap() = w0 as c_ulong;
+            m1.insert(a);
+            assert!(m1.word(0) == (w0 | (1_u64 << a)) as c_ulong && m1.len_bytes() == 8, "1-word mask: insert adds exactly one bit and keeps the others");
+        }
+        witness!(a >= 64 && w1 != 0 && (w1 >> (a - 64)) & 1 == 0, "new id in the last word of a non-empty 2-word mask");
+        witness!(a < 64 && w0 != 0, "new id in the only word of a non-empty 1-word mask");
+    }
+
     harnesses! {
         // @verif id=C11 tier=quick timeout=300 mem=8 expect=pass covers=3
         // @bounds BitPosition::{of,bit,processor_id} for EVERY u32 processor id
@@ -118,6 +144,11 @@ pub(crate) mod folo_verif_cpu_mask {
         // @bounds CpuMask: a 1-word mask with one solver-chosen id and a 2-word mask with one solver-chosen id plus an arbitrary second word: membership at an arbitrary id, equality iff same set, width unchanged
         #[cfg_attr(kani, kani::stub(SmallVec::resize, smallvec_resize_model))]
         fn c11_mask_eq_width_independent [unwind 4] { eq_width_independent() }
+
+        // @verif id=C11 tier=quick timeout=900 mem=12 expect=pass covers=2
+        // @bounds CpuMask::insert from an ARBITRARY prior content (1-word and 2-word masks, id inside the width): exactly one bit added, members kept, width unchanged
+        #[cfg_attr(kani, kani::stub(SmallVec::resize, smallvec_resize_model))]
+        fn c11_mask_insert_preserves_members [unwind 4] { insert_preserves_members() }
 
         // @verif id=C11 tier=quick timeout=900 mem=10 expect=fail
         // @bounds vacuity twin of c11_mask_eq_width_independent
